@@ -8,7 +8,7 @@ cd /repo || exit 2
 if ! git diff --quiet -- . ':!*zz_verif_*'; then echo "/repo has uncommitted changes"; exit 2; fi
 if ! git apply "$patch"; then echo "PATCH DOES NOT APPLY"; exit 3; fi
 cd /verif
-./check --property "$prop" -v "$@"
+VERIF_EVIDENCE_DIR=/tmp/verif-evidence-scratch ./check --property "$prop" -v "$@"
 rc=$?
 git -C /repo checkout -- . ':!*zz_verif_*'
 echo "check exit code: $rc"
